@@ -427,6 +427,12 @@ func (l *Lexer) readRawString() string {
 				result.WriteByte('`')
 				continue
 			}
+			if nextChar == '\\' {
+				// an escaped backslash: the second one does not escape what follows
+				l.ReadChar()
+				result.WriteString("\\\\")
+				continue
+			}
 		}
 		if l.CurrentChar == '`' {
 			break
